@@ -103,4 +103,6 @@ var trSpecs = []trSpec{
 	{name: "findSeed", file: "consensus/election_algorithm.go", fn: "electionAlgorithm.findSeed",
 		from: "return int64(context.hashH.Height)", n: 1, expr: "int64(context.hashH.Height)",
 		ins: []trIn{{"context.hashH.Height", "uint64", "height"}}},
+	// C14 — the batch-boundary loop (slices of block pointers projected to BlockType)
+	{name: "filterBlocksToCommit", file: "chain/account_pool.go", fn: "accountPool.filterBlocksToCommit"},
 }
